@@ -8,7 +8,7 @@
 //! coq/Loop/World.v (`tev`).
 //!
 //! stdin, one scenario per line:
-//!   [mode: send|local-adapter|local-native |] actors: <cfg> ; <cfg> ... | msgs: <id>=<script> ; ... | ops: <op> ; <op> ...
+//!   [mode: send|local-adapter|local-native|remote-shim |] actors: <cfg> ; <cfg> ... | msgs: <id>=<script> ; ... | ops: <op> ; <op> ...
 //!   cfg    = pre=<script> ps=<script> stop=<script> sup=def|<script> link=-|<n>
 //!   script = <eff>,<eff>,.../ok | /e<k> | /p<k>      (no effects: "/ok")
 //!   eff    = g<n> | t | s<a>:<m> | x<a>:n | x<a>:<r> | k<a> | d<a>
@@ -23,12 +23,24 @@
 //! runtime + LocalSet) while the driver, the `start()` futures of `spawn_instant` and the join
 //! watchers stay on the paused main runtime.  The two threads never run at the same time: see
 //! `Local` below (freezer + /proc quiescence barrier) and docs/notes/C01-threadlocal.md.
+//!   remote-shim    every scripted actor has a REMOTE ActorId (`ActorRuntime::spawn_linked_remote`, the
+//!                  entry point ractor_cluster uses for its RemoteActor shims) and lives on the paused
+//!                  main runtime like mode `send`.  `cast` goes box_message -> SerializedMessage::Cast ->
+//!                  the non-local branch of process_message -> `handle_serialized`, whose body decodes
+//!                  the message and runs the same script as `handle` (same TEnter/TExit (Handle m)).
+//!                  `link=-` actors are supervised by an invisible harness root (spawn_linked_remote
+//!                  has no unsupervised form).  spawn_linked_remote is not an instant spawn: the op
+//!                  polls its future once at once (cell creation, status Starting, pre_start up to its
+//!                  first suspension; model: LSpawn a; LPoll a) and leaves the rest to a harness task.
+//!                  Extra op `sendn a m`: cast of a NON-serializable message (rejected by box_message
+//!                  for a remote pid; not a model step).  docs/notes/C01-remote-shim.md.
 use std::collections::HashMap;
 use std::rc::Rc;
 use std::sync::atomic::{AtomicBool, AtomicU64, Ordering};
 use std::sync::{Arc, Condvar, Mutex};
 use std::time::{Duration, Instant};
 
+use ractor::message::{BoxedDowncastErr, SerializedMessage};
 use ractor::thread_local::{ThreadLocalActor, ThreadLocalActorSpawner};
 use ractor::{Actor, ActorCell, ActorId, ActorProcessingErr, ActorRef, ActorStatus, SpawnErr, SupervisionEvent};
 use rv_harness::*;
@@ -222,7 +234,30 @@ async fn run_script(ctx: &Arc<Ctx>, me: usize, cb: String, script: &Script) -> R
 }
 
 struct HMsg(u64);
-impl ractor::Message for HMsg {}
+/// `Message::serializable` is a static property of the type; the `sendn` op of mode remote-shim
+/// flips it off around one cast to present a message type without wire format.
+static SERIALIZABLE: AtomicBool = AtomicBool::new(true);
+impl ractor::Message for HMsg {
+    fn serializable() -> bool {
+        SERIALIZABLE.load(Ordering::SeqCst)
+    }
+    fn serialize(self) -> Result<SerializedMessage, BoxedDowncastErr> {
+        Ok(SerializedMessage::Cast {
+            variant: "m".into(),
+            args: self.0.to_be_bytes().to_vec(),
+            metadata: None,
+        })
+    }
+    fn deserialize(m: SerializedMessage) -> Result<Self, BoxedDowncastErr> {
+        match m {
+            SerializedMessage::Cast { args, .. } | SerializedMessage::Call { args, .. } => {
+                let b: [u8; 8] = args.as_slice().try_into().map_err(|_| BoxedDowncastErr)?;
+                Ok(HMsg(u64::from_be_bytes(b)))
+            }
+            _ => Err(BoxedDowncastErr),
+        }
+    }
+}
 
 /// One scripted actor's identity and scripts; the callback bodies are shared by the three hosts
 /// (`H`: Send actor, `HL`: Send actor behind the thread-local adapter, `HN`: native thread-local).
@@ -314,6 +349,74 @@ impl Actor for H {
         self.0.cb_sup(evt).await
     }
 }
+
+/// mode `remote-shim`: the same scripts behind an actor with a remote ActorId.  The cell only exists
+/// once spawn_linked_remote has been polled, so pre_start publishes `myself` to the harness.
+struct HR(Me);
+
+#[cfg_attr(feature = "async-trait", ractor::async_trait)]
+impl Actor for HR {
+    type Msg = HMsg;
+    type State = ();
+    type Arguments = ();
+
+    async fn pre_start(&self, myself: ActorRef<HMsg>, _: ()) -> Result<(), ActorProcessingErr> {
+        self.0.ctx.cells.lock().unwrap().insert(self.0.me, myself.get_cell());
+        self.0.ctx.ids.lock().unwrap().insert(myself.get_id(), self.0.me);
+        self.0.cb_pre_start().await
+    }
+    async fn post_start(&self, _myself: ActorRef<HMsg>, _: &mut ()) -> Result<(), ActorProcessingErr> {
+        self.0.cb_post_start().await
+    }
+    async fn post_stop(&self, _myself: ActorRef<HMsg>, _: &mut ()) -> Result<(), ActorProcessingErr> {
+        self.0.cb_post_stop().await
+    }
+    async fn handle(&self, _myself: ActorRef<HMsg>, msg: HMsg, _: &mut ()) -> Result<(), ActorProcessingErr> {
+        // never taken for a remote id (process_message hands every message to handle_serialized)
+        self.0.cb_handle(msg).await
+    }
+    async fn handle_serialized(
+        &self,
+        _myself: ActorRef<HMsg>,
+        msg: SerializedMessage,
+        _: &mut (),
+    ) -> Result<(), ActorProcessingErr> {
+        let m = <HMsg as ractor::Message>::deserialize(msg)?;
+        self.0.cb_handle(m).await
+    }
+    async fn handle_supervisor_evt(
+        &self,
+        _myself: ActorRef<HMsg>,
+        evt: SupervisionEvent,
+        _: &mut (),
+    ) -> Result<(), ActorProcessingErr> {
+        self.0.cb_sup(evt).await
+    }
+}
+
+/// the invisible supervisor of `link=-` actors in mode remote-shim: hears everything, does nothing
+struct Root;
+
+#[cfg_attr(feature = "async-trait", ractor::async_trait)]
+impl Actor for Root {
+    type Msg = HMsg;
+    type State = ();
+    type Arguments = ();
+
+    async fn pre_start(&self, _myself: ActorRef<HMsg>, _: ()) -> Result<(), ActorProcessingErr> {
+        Ok(())
+    }
+    async fn handle_supervisor_evt(
+        &self,
+        _myself: ActorRef<HMsg>,
+        _evt: SupervisionEvent,
+        _: &mut (),
+    ) -> Result<(), ActorProcessingErr> {
+        Ok(())
+    }
+}
+
+static REMOTE_PID: AtomicU64 = AtomicU64::new(1);
 
 /// mode `local-adapter`: a Send actor that is `Default` (the handler is created on the spawner
 /// thread by `T::default()`, so everything per-actor travels in Arguments / State) and is hosted
@@ -476,6 +579,7 @@ enum Mode {
     Send,
     LocalAdapter,
     LocalNative,
+    RemoteShim,
 }
 
 fn infra(msg: &str) -> ! {
@@ -721,6 +825,7 @@ async fn run_case(line: &str) -> String {
                 "send" => Mode::Send,
                 "local-adapter" => Mode::LocalAdapter,
                 "local-native" => Mode::LocalNative,
+                "remote-shim" => Mode::RemoteShim,
                 other => panic!("unknown mode {other}"),
             };
         } else if let Some(r) = sec.strip_prefix("actors:") {
@@ -743,10 +848,77 @@ async fn run_case(line: &str) -> String {
         start_abort: Mutex::new(HashMap::new()),
         loop_abort: Mutex::new(HashMap::new()),
     });
-    let local = if mode == Mode::Send { None } else { Some(Local::new().await) };
+    let local = if matches!(mode, Mode::LocalAdapter | Mode::LocalNative) { Some(Local::new().await) } else { None };
+    let root: Option<ActorCell> = if mode == Mode::RemoteShim {
+        let (r, _h) = Actor::spawn(None, Root, ()).await.unwrap_or_else(|e| infra(&format!("root actor: {e}")));
+        settle().await;
+        Some(r.get_cell())
+    } else {
+        None
+    };
     for op in &ops {
         let w: Vec<&str> = op.split_whitespace().collect();
         match w[0] {
+            // spawn_linked_remote is an `async fn` (no instant form): first poll now, rest in a task
+            "spawn" if mode == Mode::RemoteShim => {
+                let a = u(w[1]) as usize;
+                if ctx.cell(a).is_some() || a >= actors.len() {
+                    continue;
+                }
+                let cfg = actors[a].clone();
+                let me = Me {
+                    ctx: ctx.clone(),
+                    me: a,
+                    cfg: cfg.clone(),
+                };
+                let sup = cfg.link.and_then(|s| ctx.cell(s)).unwrap_or_else(|| root.clone().unwrap());
+                let id = ActorId::Remote {
+                    node_id: 7,
+                    pid: REMOTE_PID.fetch_add(1, Ordering::SeqCst),
+                };
+                touch();
+                let mut fut = Box::pin(ractor::ActorRuntime::<HR>::spawn_linked_remote(None, HR(me), id, (), sup));
+                let first = futures::poll!(fut.as_mut());
+                let ctx2 = ctx.clone();
+                let finish = move |ctx2: Arc<Ctx>, r: Result<(ActorRef<HMsg>, JoinHandle<()>), SpawnErr>| async move {
+                    match r {
+                        Ok((_aref, inner)) => {
+                            ctx2.loop_abort.lock().unwrap().insert(a, inner.abort_handle());
+                            ctx2.log(format!("TSpawnRet {a} true"));
+                            if inner.await.is_ok() {
+                                ctx2.log(format!("TJoin {a}"));
+                            }
+                        }
+                        Err(_) => ctx2.log(format!("TSpawnRet {a} false")),
+                    }
+                };
+                match first {
+                    std::task::Poll::Ready(r) => {
+                        // the loop handle must be known to `abort` before the next op
+                        if let Ok((_, inner)) = &r {
+                            ctx.loop_abort.lock().unwrap().insert(a, inner.abort_handle());
+                        }
+                        tokio::spawn(finish(ctx2, r));
+                    }
+                    std::task::Poll::Pending => {
+                        let h = tokio::spawn(async move {
+                            let r = fut.await;
+                            finish(ctx2, r).await
+                        });
+                        ctx.start_abort.lock().unwrap().insert(a, h.abort_handle());
+                    }
+                }
+            }
+            "sendn" => {
+                let a = u(w[1]) as usize;
+                if let Some(c) = ctx.cell(a) {
+                    touch();
+                    SERIALIZABLE.store(false, Ordering::SeqCst);
+                    let r = ActorRef::<HMsg>::from(c).cast(HMsg(u(w[2])));
+                    SERIALIZABLE.store(true, Ordering::SeqCst);
+                    ctx.log(format!("TSent {a} {} {}", w[2], coq_bool(r.is_ok())));
+                }
+            }
             "spawn" => {
                 let a = u(w[1]) as usize;
                 if ctx.cell(a).is_some() || a >= actors.len() {
@@ -786,6 +958,7 @@ async fn run_case(line: &str) -> String {
                         (Mode::LocalNative, None) => {
                             <HN as ThreadLocalActor>::spawn_instant(None, me, local.as_ref().unwrap().spawner.clone())
                         }
+                        (Mode::RemoteShim, _) => unreachable!(),
                     };
                 match res {
                     Ok((aref, start_handle)) => {
@@ -945,6 +1118,10 @@ async fn run_case(line: &str) -> String {
     }
     if let Some(l) = local {
         l.finish();
+    }
+    if let Some(r) = root {
+        r.kill();
+        settle().await;
     }
     out
 }
